@@ -29,6 +29,22 @@
        constitution therefore occurs with each ring atom written first and in
        both directions, i.e. with the hetero atom / the odd bond at every
        position of the ring the Benson perception step walks over.
+(e) fifth wave (domains/w5_c02.py), same oracle:
+    K  synthetic schemes whose declaration carries a COUNT, operator over
+       {bare digit, =, >, <, >=, <=} x digit 0..4 x counted quantity {C
+       neighbours, H neighbours, size of a ring the atom is in, number of
+       rings, radical electrons}, (i) on a correction descriptor, plain and
+       negated, as a single atom and - neighbour counts - as the asymmetric
+       C{count}-O-C pattern of Benson's ether correction; (ii) on the centre
+       patterns: carbon classified by C{count(op, n)} / C{! count(op', n)},
+       which partition the carbons when op' = op and otherwise overlap or
+       leave a gap exactly at the limit (failure clause).  Molecules: carbons
+       with 0..4 C and 0..4 H neighbours, 1-3 radical electrons, 3- and
+       4-rings, a carbon in two rings, all ten ethers over {Me, Et, iPr, tBu}
+       - so every declared limit 0..4 has atoms below it, on it and above it.
+    L  shipped schemes on the substitution ladder R-Y-R', R over
+       {H, Me, Et, iPr, tBu}, Y over {O, OO, C(=O), CH2, C(=O)O} (84
+       molecules).
 Oracle: models/schemeref.py (independent scheme interpreter over ringref).
 """
 import os
@@ -40,6 +56,7 @@ from ..domains import schemes as SD
 from ..domains import libs
 from ..domains import w3_c02 as W3
 from ..domains import w4_c02 as W4
+from ..domains import w5_c02 as W5
 
 LEVEL = 'exploration'
 BOUND = {
@@ -57,7 +74,14 @@ BOUND = {
              '{C, N}^6 x 2 Kekule phases + aromatic spelling (192), all-carbon '
              'ring x ring bonds {single, double}^6 (64), one methyl on each '
              'carbon position of each {C, N}^6 Kekule ring (384), no '
-             'de-duplication of spellings',
+             'de-duplication of spellings; fifth wave: 870 synthetic schemes '
+             'with a count declaration = {descriptor on one atom: 5 counted '
+             'quantities; descriptor C{count}-O-C: 2 neighbour counts} x '
+             '{plain, negated} x 6 operators x digits 0..4 (420) + centre '
+             'pair C{count op n} / C{! count op\' n}: 2 neighbour counts x 36 '
+             'operator pairs x 5 digits + 3 other counts x 6 x 5 (450), each '
+             'on 36 molecules; the 6 distinct scheme files on the 84 '
+             'molecules R-Y-R\' of the substitution ladder',
     'thorough': 'shipped: M(4) C/O with radicals + closed-shell M(5); '
                 'synthetic: all 255 subsets of the 8-pattern pool x 5 x 4 on '
                 'M(3)+8; third wave: 255 subsets x 4 name-sharing variants '
@@ -66,7 +90,11 @@ BOUND = {
                 'quick; fourth wave: the six-ring spellings of quick plus ring '
                 'atoms {C, N, O}^6 x the 18 ring-bond words over {single, '
                 'double}^6 without adjacent double bonds, kept when RDKit '
-                'accepts the valences (4591 spellings in all)'}
+                'accepts the valences (4591 spellings in all); fifth wave: '
+                'count declarations as in quick plus O-neighbour and '
+                'heavy-neighbour counts and all 36 operator pairs for every '
+                'counted quantity (1920 schemes) on the same 36 molecules; '
+                'the substitution ladder as in quick'}
 RULE = ('every (scheme, molecule) pair is decomposed by the implementation and '
         'by the reference interpreter; compared: success vs PatternMatchError, '
         'the total dictionary (1e-9) and - through a harness-side wrapper of '
@@ -99,9 +127,17 @@ MANIFEST = dict(
          'rings enumerated as words over the ring positions (atoms {C, N}, '
          'bonds {single, double}, one methyl at each position), each word '
          'written from its first position so that every ring atom of every '
-         'constitution is the first written one in some spelling.',
+         'constitution is the first written one in some spelling.  Count '
+         'declarations ({connected to <3 C}, {in ring of size >=4}, {in 1 '
+         'ring}, {has =1 radical electrons}, plain or negated) are '
+         'enumerated over all six operator spellings x digits 0..4 on '
+         'correction descriptors and on pairs of centre patterns, on '
+         'molecules that hold atoms below, on and above every limit; the '
+         'shipped schemes are run on the ladder R-Y-R\' over {H, Me, Et, '
+         'iPr, tBu} x {ether, peroxide, ketone, alkane, ester}.',
     note='Molecules larger than the enumeration bound only through the '
-         'curated list, the substituted-ethene and the six-ring families.',
+         'curated list, the substituted-ethene, six-ring and '
+         'substitution-ladder families.',
     ref='5/C02')
 
 _CAPTURE = {'mol': None, 'installed': None}
@@ -318,6 +354,38 @@ def run_w3_synthetic(R, descs, tier, only=None):
                              smiles=smi))
 
 
+def run_w5_synthetic(R, descs, tier, only=None):
+    """Family K of domains/w5_c02.py: schemes with a count declaration."""
+    from pgradd.GroupAdd.Scheme import GroupAdditivityScheme
+    with tempfile.TemporaryDirectory(prefix='pgv_c02_') as d:
+        for desc in descs:
+            dd = W5.scheme_dict(desc)
+            p = SD.write_scheme(dd, d)
+            tag = W5.tag(desc)
+            try:
+                impl = GroupAdditivityScheme.Load(p)
+            except Exception as e:     # noqa
+                R.evals += 1
+                R.violation('%s:load-%s' % (tag.split('/')[0], type(e).__name__),
+                            'scheme %r cannot be loaded: %s' % (desc, e),
+                            dict(kind='synthetic-w5', desc=W5.to_json(desc),
+                                 smiles=None))
+                continue
+            S = SR.scheme_from_dict(dd)
+            for smi in (W5.K_MOLECULES if only is None else [only]):
+                compare(R, tag, impl, S, smi,
+                        dict(kind='synthetic-w5', desc=W5.to_json(desc),
+                             smiles=smi))
+
+
+def run_ladder(R, name, i, n):
+    """Family L: a shipped scheme on the substitution ladder."""
+    impl, S = shipped(name)
+    for smi in W5.ladder()[i::n]:
+        compare(R, 'ladder/' + name, impl, S, smi,
+                dict(kind='ladder', scheme=name, smiles=smi))
+
+
 def run_ethenes(R, name, i, n):
     """Family E: a shipped scheme on the substituted ethenes."""
     impl, S = shipped(name)
@@ -356,6 +424,12 @@ def shards(tier, seed):
     for name in SD.distinct_schemes():
         for i in range(nch):
             out.append(('sixrings', name, i, nch))
+    nch = 12 if tier == 'quick' else 24
+    for i in range(nch):
+        out.append(('synthetic-w5', i, nch))
+    for name in SD.distinct_schemes():
+        for i in range(2):
+            out.append(('ladder', name, i, 2))
     return out
 
 
@@ -368,6 +442,10 @@ def run_shard(shard, tier):
         run_names(R, shard[1])
     elif shard[0] == 'synthetic-w3':
         run_w3_synthetic(R, W3.schemes(tier)[shard[1]::shard[2]], tier)
+    elif shard[0] == 'synthetic-w5':
+        run_w5_synthetic(R, W5.count_schemes(tier)[shard[1]::shard[2]], tier)
+    elif shard[0] == 'ladder':
+        run_ladder(R, shard[1], shard[2], shard[3])
     elif shard[0] == 'ethenes':
         run_ethenes(R, shard[1], shard[2], shard[3])
     elif shard[0] == 'sixrings':
@@ -391,6 +469,11 @@ def replay(w):
         lib = libs.load(w['scheme'])
         S = SR.load_scheme(SD.scheme_path(w['scheme']))
         compare(R, 'library/' + w['scheme'], lib, S, w['smiles'], w)
+    elif w['kind'] == 'ladder':
+        impl, S = shipped(w['scheme'])
+        compare(R, 'ladder/' + w['scheme'], impl, S, w['smiles'], w)
+    elif w['kind'] == 'synthetic-w5':
+        run_w5_synthetic(R, [W5.from_json(w['desc'])], 'quick', only=w['smiles'])
     elif w['kind'] == 'synthetic-w3':
         run_w3_synthetic(R, [W3.from_json(w['desc'])], 'quick', only=w['smiles'])
     else:
